@@ -14,4 +14,4 @@ Fixpoint dec_digits (fuel : nat) (v : N) (acc : list N) : list N :=
   end.
 Definition z_to_dec (z : Z) : bool * list N := ((z <? 0)%Z, dec_digits 25 (Z.abs_N z) []).
 Extraction "c18m.ml" keep_types z_of_dec z_to_dec crc32 header save_writes save crash_save load remove gc lookup
-  store read_from_file crash_file new_image ps_okb valid_name valid_sid sid_load load_limited alloc_size size_fits short_chunks save_short load_short read_from_file_short.
+  store read_from_file crash_file new_image ps_okb valid_name valid_sid sid_load load_limited alloc_size size_fits short_chunks save_short load_short read_from_file_short crc32_calc.
